@@ -13,7 +13,10 @@ ASSUMPTIONS = ["one-dimensional arrays of constants and secrets; histories of re
                "at plain indices (the inner object itself: aliasing is list semantics and is modelled in the reference) and at secret "
                "indices (read-only snapshots), copies, element reads a[i,j] / a[i][j] / r[j], writes a[i,j]=v, a[k][j]=v, r[j]=v, a[i]=row, "
                "reads inside a taken / not-taken if_then_else branch, some indices outside the array (must raise IndexError at their first "
-               "use outside a branch that is not taken); every value also checked against its wire expression on the recorded witness"]
+               "use outside a branch that is not taken); rows read at a SECRET index and then stored at a constant position "
+               "(`a[0] = a[PrivVal(2)]`), matrices built from previously read rows (`g = Array([a[PrivVal(1)], a[0]])`), followed by "
+               "element writes through tuple indices with a constant or secret first index and reads back; the matrix is compared with "
+               "the list model after every operation; every value also checked against its wire expression on the recorded witness"]
 PARTIAL = []
 LEVELS = "VS"
 P97 = 97
@@ -93,8 +96,31 @@ def gen_2d(rnd):
         nvar[0] += 1
         return f"v{nvar[0]}"
 
+    def stored_views(gather):
+        """a row read at a secret index is stored at a constant position, or the matrix is rebuilt from rows read before; then
+        element writes through tuple indices (constant / secret first index) and reads back"""
+        if gather and rnd.random() < 0.5:
+            ops.append(["gather", [spec(True) if rnd.random() < 0.3 else ["s", rnd.randrange(rows)] for _ in range(rows)]])
+            targets = list(range(rows))
+        else:
+            v = newvar(); rowvars[v] = "rowview"
+            secret_row_idx = [k for k, (s_, i_, fr) in idxs.items() if s_ and fr]
+            ops.append(["row", v, ["n", rnd.choice(secret_row_idx)] if secret_row_idx and rnd.random() < 0.3 else ["s", rnd.randrange(rows)]])
+            r = rnd.randrange(rows)
+            ops.append(["setrow", ["p", r], v])
+            targets = [r]
+        for _ in range(rnd.randrange(1, 4)):
+            r = rnd.choice(targets)
+            c = rnd.random()
+            first = ["p", r] if c < 0.75 else ["s", r]
+            second = ["p", rnd.randrange(cols)] if rnd.random() < 0.5 else spec(False)
+            if rnd.random() < 0.8: ops.append(["set2", first, second, fresh_val()])
+            else: ops.append([rnd.choice(["get2", "getrc"]), newvar(), first, second])
+
     for _ in range(rnd.randrange(1, 3)):
         new_idx(True)
+    if rnd.random() < 0.2:
+        stored_views(True)
     for _ in range(rnd.randrange(3, 9)):
         c = rnd.random()
         if c < 0.17:
@@ -116,12 +142,13 @@ def gen_2d(rnd):
             ops.append(["set2", spec(True), spec(False), fresh_val()])
         elif c < 0.90 and rowvars:
             v = rnd.choice(list(rowvars))
-            # a plain-index row write stores the OBJECT: only copies are stored that way (a read-only snapshot inside the
-            # matrix would make later element writes raise by design)
+            # a plain-index row write stores the OBJECT; an alias of an inner row is stored that way only as a copy
             sp = spec(True, plain_ok=(rowvars[v] == "array"))
             if sp[0] == "n" and not idxs[sp[1]][0] and rowvars[v] != "array":
                 sp = ["s", idxs[sp[1]][1]]
             ops.append(["setrow", sp, v])
+        elif c < 0.94:
+            stored_views(True)
         else:
             ops.append(["bget", newvar(), rnd.choice([0, 0, 1]), spec(True), spec(False)])
     # read everything back through the reused index objects
@@ -136,15 +163,20 @@ def classify_2d(h, at):
     went wrong (or the whole history)"""
     ops = h["ops"] if at is None else h["ops"][:at + 1]
     used = {}
-    reuse = False; bypass = False; branch = False
+    reuse = False; bypass = False; branch = False; stored = False
+    views = set()
     for op in ops:
+        if op[0] == "row" and (op[2][0] == "s" or (op[2][0] == "n" and any(o[0] == "idx" and o[1] == op[2][1] and o[2] for o in h["ops"]))):
+            views.add(op[1])
+        if op[0] == "gather" or (op[0] == "setrow" and op[2] in views and op[1][0] != "s"): stored = True
         named = [x[1] for x in op if isinstance(x, list) and len(x) == 2 and x[0] == "n"]
         for nme in named:
             if used.get(nme): reuse = True
             used[nme] = True
             if op[0] == "bget" and not op[2]: branch = True
         if op[0] in ("setchain", "set1"): bypass = True
-    return {"index_object_reused": reuse, "write_through_row": bypass, "index_first_used_in_branch_not_taken": branch}
+    return {"index_object_reused": reuse, "write_through_row": bypass, "index_first_used_in_branch_not_taken": branch,
+            "secret_read_row_stored_in_matrix": stored}
 
 
 def explore_2d(ctx, ex):
@@ -165,7 +197,8 @@ def explore_2d(ctx, ex):
             ex.traces_validated += 1
             bad = None
             if d["m"] != d["ref"]:
-                bad = f"array contents {d['m']} vs list semantics {d['ref']}"
+                bad = (f"after operation #{d['at']} {h['ops'][d['at']]}: " if d.get("at") is not None else "") + \
+                      f"array contents {d['m']} vs list semantics {d['ref']}"
             else:
                 for k, v in d["rvars"].items():
                     if d["vars"].get(k) != v:
